@@ -339,6 +339,21 @@ func dominatesFam(a, b ssa.Instruction) bool {
 	if la := liftTo(a, b.Parent()); la != nil && la.Parent() == b.Parent() {
 		return core.Dominates(la, b) && alwaysExecuted(a)
 	}
+	// b inside a helper with several call sites: a must come before every one of them
+	if c := curCtx; c != nil {
+		h := outermost(b.Parent())
+		if h != outermost(a.Parent()) && c.transparent(h) {
+			sites := c.P.CallIndex().Sites[h]
+			if len(sites) > 1 {
+				for _, site := range sites {
+					if !dominatesFam(a, site) {
+						return false
+					}
+				}
+				return true
+			}
+		}
+	}
 	return false
 }
 
